@@ -86,6 +86,13 @@ Theorem C03_escape_scalar_string_index_loop : forall V start stop, escape_range_
 Proof. exact escape_range_lit_eq. Qed.
 Print Assumptions C03_escape_scalar_string_index_loop.
 
+(* the recursion fuel of the model (S (length V), for the element loops and for the nesting) is never the reason for
+   an answer, whatever the buffer: every nested header lies at least 4 bytes after its parent's, every loop iteration
+   reads an entry word 4 bytes further, and a read past the end ends the walk first (as it does in the code) *)
+Theorem C03_byte_walker_fuel_never_runs_out : forall pf V pretty, render_w pf V pretty <> Err EFuel.
+Proof. exact render_w_not_fuel. Qed.
+Print Assumptions C03_byte_walker_fuel_never_runs_out.
+
 (* on encodings the walker and the view-level model (decode, then render the tree) are the same function *)
 Theorem C03_byte_walker_agrees_with_view_model : forall v, wfb v = true -> top_ok v ->
   to_string_w (enc v) = Dispatch.to_string_m (enc v) /\ to_pretty_string_w (enc v) = Dispatch.to_pretty_string_m (enc v).
